@@ -514,6 +514,7 @@ func Run(r *core.Run) {
 	lengthFieldProbes(r)
 	purityPart(r)
 	tagPart(r)
+	limitPart(r)
 	commitPart(r, 4)
 	builderPart(r, maxSeq)
 	ev := r.Get("hash_bytes_tuples") + r.Get("hash_int_tuples") + r.Get("hash_tagged_inputs") + r.Get("purity_calls") + r.Get("tag_inputs") + r.Get("commit_edits") + r.Get("builder_layouts") + r.Get("parse_sequences")
